@@ -575,8 +575,13 @@ func runC16Race(c *Case, out func(string)) {
 	for _, l := range c.Lines {
 		if l[0] == "x" && len(l) >= 3 {
 			iters, _ = strconv.Atoi(l[2])
-			if l[1] == "race-put" {
+			switch l[1] {
+			case "race-put":
 				entryType = wal.OpTypePut
+			case "race-delete":
+				entryType = wal.OpTypeDelete
+			case "race-all":
+				entryType = 0 // puts, deletes and merge entries in turn
 			}
 		}
 	}
@@ -596,7 +601,15 @@ func runC16Race(c *Case, out func(string)) {
 		}(g)
 	}
 	for i := 0; i < iters; i++ {
-		n.ap.Apply(&wal.Entry{Type: entryType, Key: []byte("repl"), Value: []byte(strconv.Itoa(i))})
+		t := entryType
+		if t == 0 {
+			t = []uint8{wal.OpTypePut, wal.OpTypeDelete, wal.OpTypeMerge}[i%3]
+		}
+		e := &wal.Entry{Type: t, Key: []byte("repl"), Value: []byte(strconv.Itoa(i))}
+		if t == wal.OpTypeDelete {
+			e.Value = nil
+		}
+		n.ap.Apply(e)
 	}
 	done.Store(true)
 	wg.Wait()
